@@ -691,7 +691,8 @@ func (w *WAL) AppendBatch(entries []*Entry) (uint64, error) {
 			payloadSize += 4 + len(entry.Value)
 		}
 
-		totalSize += HeaderSize + payloadSize
+		// An entry larger than one record is split into fragments, each with its own header
+		totalSize += HeaderSize*(payloadSize/MaxRecordSize+2) + payloadSize
 	}
 
 	// Ensure writer buffer is large enough for atomic write
@@ -715,8 +716,19 @@ func (w *WAL) AppendBatch(entries []*Entry) (uint64, error) {
 	// Now write all entries atomically (no intermediate flushes)
 	// All entries in the batch share the same sequence number
 	for i, entry := range entries {
-		// Write the entry using its original type and the same sequence number
-		if err := w.writeRecord(RecordTypeFull, entry.Type, startSeqNum, entry.Key, entry.Value); err != nil {
+		// Write the entry using its original type and the same sequence number,
+		// fragmented like a single Append if it does not fit into one record
+		entrySize := 1 + 8 + 4 + len(entry.Key)
+		if entry.Type != OpTypeDelete {
+			entrySize += 4 + len(entry.Value)
+		}
+		var err error
+		if entrySize <= MaxRecordSize {
+			err = w.writeRecord(RecordTypeFull, entry.Type, startSeqNum, entry.Key, entry.Value)
+		} else {
+			err = w.writeFragmentedRecord(entry.Type, startSeqNum, entry.Key, entry.Value)
+		}
+		if err != nil {
 			return 0, fmt.Errorf("failed to write entry %d: %w", i, err)
 		}
 		verifhook.At2("wal.batch.rec", startSeqNum, uint64(i))
@@ -783,7 +795,8 @@ func (w *WAL) AppendBatchWithSequence(entries []*Entry, startSequence uint64) (u
 			payloadSize += 4 + len(entry.Value)
 		}
 
-		totalSize += HeaderSize + payloadSize
+		// An entry larger than one record is split into fragments, each with its own header
+		totalSize += HeaderSize*(payloadSize/MaxRecordSize+2) + payloadSize
 	}
 
 	// Ensure writer buffer is large enough for atomic write
@@ -807,8 +820,19 @@ func (w *WAL) AppendBatchWithSequence(entries []*Entry, startSequence uint64) (u
 	// Now write all entries atomically (no intermediate flushes)
 	// All entries in the batch share the same sequence number
 	for i, entry := range entries {
-		// Write the entry using its original type and the same sequence number
-		if err := w.writeRecord(RecordTypeFull, entry.Type, startSeqNum, entry.Key, entry.Value); err != nil {
+		// Write the entry using its original type and the same sequence number,
+		// fragmented like a single Append if it does not fit into one record
+		entrySize := 1 + 8 + 4 + len(entry.Key)
+		if entry.Type != OpTypeDelete {
+			entrySize += 4 + len(entry.Value)
+		}
+		var err error
+		if entrySize <= MaxRecordSize {
+			err = w.writeRecord(RecordTypeFull, entry.Type, startSeqNum, entry.Key, entry.Value)
+		} else {
+			err = w.writeFragmentedRecord(entry.Type, startSeqNum, entry.Key, entry.Value)
+		}
+		if err != nil {
 			return 0, fmt.Errorf("failed to write entry %d: %w", i, err)
 		}
 		verifhook.At2("wal.batch.rec", startSeqNum, uint64(i))
